@@ -53,8 +53,8 @@ Definition ptoken_of (b : bytes) (t : token) : ptoken :=
   {| pk := t_kind t; plit := tok_lit b t; pcs := t_cs t; pce := t_ce t |}.
 
 (* Tokenizer.Read / Peek skip ONE comment: of a run of consecutive COMMENT tokens the 1st, 3rd, ...
-   are skipped and the 2nd, 4th, ... reach the parser (runs longer than one arise only around a NUL
-   byte inside a comment). *)
+   are skipped and the 2nd, 4th, ... reach the parser (runs longer than one arose only around a NUL
+   byte inside a comment, i.e. before c05_fix_rt-nul-in-string; the lexer merges adjacent comments). *)
 Fixpoint strip (ts : list ptoken) : list ptoken :=
   match ts with
   | [] => []
